@@ -89,7 +89,7 @@ theorem float_into_float (b : Bool) (bits : Nat) (tag : Option Int) :
 /-- An untyped slot receives exactly the serialized integer (as `int`, or `uint64` above MaxInt64). -/
 theorem untyped_exact (ts : Types) (a : Atlas) (trs : Trs) (it : IfaceTys) (fuel : Nat) (t : Tok) (rest : List Tok) (x : Int)
     (ht : tokInt t = some x) (hr : -9223372036854775808 ≤ x ∧ x ≤ 18446744073709551615) (htag : t.tag = none) :
-    ∃ dt v, unmWild ts a trs it (fuel + 1) t rest = .ok (.iface (some (dt, v))) rest 1 ∧ valInt v = some x := by
+    ∃ dt v, unmWild ts a trs it (fuel + 1) false t rest = .ok (.iface (some (dt, v))) rest 1 ∧ valInt v = some x := by
   obtain ⟨body, tag⟩ := t
   simp at htag
   subst htag
